@@ -403,9 +403,12 @@ func (ex *Exec) check(extra *Term) (Result, map[string]uint64) {
 func (ex *Exec) inPrefix() bool { return ex.pos < len(ex.prefix) }
 
 // branch decides a symbolic condition, forking when both sides are feasible.
-func (ex *Exec) branch(c *Term) bool {
+func (ex *Exec) branch(c *Term) (res bool) {
 	if c.IsConst() {
 		return c.Val == 1
+	}
+	if traceB {
+		defer func() { fmt.Fprintf(os.Stderr, "B %v <- %s @ %s\n", res, c.String(), ex.site(ex.cur)) }()
 	}
 	// byte-domain shortcut (see domain.go)
 	var domT, domF byteDom
@@ -704,6 +707,7 @@ func (eng *Engine) done() {
 
 var logMu sync.Mutex
 var traceQ = os.Getenv("GOSYM_TRACEQ") != ""
+var traceB = os.Getenv("GOSYM_TRACEQ") == "2"
 
 func (eng *Engine) logQuery(id, script string) {
 	logMu.Lock()
@@ -1024,4 +1028,32 @@ func (eng *Engine) lookupMethod(t types.Type, pkg *types.Package, name string) *
 		return nil
 	}
 	return eng.Prog.MethodValue(sel)
+}
+
+// DumpSSA prints the SSA of pkg.fn (debugging aid).
+func (eng *Engine) DumpSSA(pkg, fn string) {
+	p := eng.Prog.ImportedPackage(eng.RepoModule + "/" + pkg)
+	if p == nil {
+		p = eng.Prog.ImportedPackage(pkg)
+	}
+	if p == nil {
+		fmt.Println("no package")
+		return
+	}
+	f := p.Func(fn)
+	if f == nil {
+		for name, fn2 := range eng.allFuncs() {
+			if strings.Contains(name, fn) && strings.Contains(name, pkg) {
+				fn2.WriteTo(os.Stdout)
+				for _, an := range fn2.AnonFuncs {
+					an.WriteTo(os.Stdout)
+				}
+			}
+		}
+		return
+	}
+	f.WriteTo(os.Stdout)
+	for _, an := range f.AnonFuncs {
+		an.WriteTo(os.Stdout)
+	}
 }
